@@ -124,8 +124,8 @@ pub fn judge_decoded(l: &mut Local, p: &[u8], exp: &Expectation, got: &DecodeOut
             }
             // C09: the variant follows the type
             if cfg.prop == "C09" {
-                if let Some((_, Val::S(v))) = fields.first() {
-                    if v != exp.variant {
+                if let Some((_, Val::T(v))) = fields.first() {
+                    if *v != exp.variant {
                         l.violation(&format!("type{}.variant", t), || describe(p, exp, got, None));
                     }
                 }
